@@ -1721,6 +1721,7 @@ impl Block {
                                                     transaction,
                                                     output1,
                                                     input2.clone(),
+                                                    output2,
                                                     output3,
                                                 );
 
